@@ -700,7 +700,9 @@ def terminal_values_contract():
             def fake_save_at(**kw):
                 REC["ctor"] = kw
 
-                def solve(u_, save_at, atol, rtol, dt0, eps, damp):
+                def solve(u_, save_at, atol, rtol, dt0=None, eps=None, damp=None):
+                    # an option that is not forwarded would silently fall back to the callee's default: recorded as -1
+                    dt0, eps, damp = (jnp.asarray(-1.0) if v is None else v for v in (dt0, eps, damp))
                     REC["call"] = dict(u=u_, save_at=save_at, atol=atol, rtol=rtol, dt0=dt0, eps=eps, damp=damp)
                     return _sol(template_t, template_t * 0 + 3.0, template_u)  # an arbitrary stacked solution
 
